@@ -7,7 +7,7 @@ namespace LLFree
 open Prog
 
 section
-variable {c : Cfg} {H : Nat → Prop} {m : Mem}
+variable {c : Cfg} {H : Nat → Nat} {m : Mem}
 
 /-- out-of-memory fallback: steal from, then demote, other slots -/
 theorem getFallback_spec (ok : CfgOk c) (inv : UpperInv0 c H m) (r : Request) (frame : Option Nat) (hcls : r.cls < 8)
